@@ -53,8 +53,20 @@ PROPS = {
         "explanation": "Verus: the comparison arm of solve_expression equals sem_cmp, whose integer relation is stated over the mathematical integers (no wrap) and whose cast table is the documented one; Kani (complete: loop-free, full i64/u64/f64 domain) on the comparison table sliced verbatim from the function: true only when the relation holds, exact IEEE semantics for doubles, trichotomy and unions for same-kind non-NaN operands",
         "assumptions": ["f64 operations are uninterpreted in Verus (deterministic functions); bit-precise facts come from the Kani slice", "numeric strings: str::parse is uninterpreted"],
     },
+    "C11": {
+        "units": {"paths": ["ObjectV::find", "ObjectVS::find"]},
+        "kani": [{"name": "c11", "module": "c11_adapters.rs", "slice_file": "value.rs", "slices": {},
+                  "harnesses": ["c11_signed_adapters", "c11_unsigned_adapters", "c11_float_bool_unit_option_adapters", "c11_to_i64"]}],
+        "explanation": "Kani (complete: loop-free, full domain of every primitive) on the real macro-generated AsValue impls: kind, numeric value and signedness are preserved; Verus: Object::find depends on a document only through Object::get (its contract is stated over obj_get), and solve_expression's postcondition res == sem3(e, ids, document.model()) makes the verdict a function of the document model alone",
+        "assumptions": ["container adapters (Vec, HashSet, HashMap) and the serde_yaml / serde_json Object/AsValue impls are not under contract (iterator adapters and external types)"],
+    },
+    "C13": {
+        "units": {"solver": ["validate", "matches", "solve"]},
+        "explanation": "validate() is proved to return Ok exactly when every true_positives example is a mapping on which the rule's verdict (the same spec function matches() ensures) is true and every true_negatives example one on which it is false; its unwrap-free body cannot panic; optimised or not is irrelevant (any well-formed detection)",
+        "assumptions": ["serde_yaml::Value::as_mapping and Mapping-as-Document are trusted glue (src/yaml.rs not under contract)", "rule_wf(self): loading establishes well-formedness (C03 link)"],
+    },
     "C06": {
-        "units": {"solver": SOLVER_CORE},
+        "units": {"solver": SOLVER_CORE + ["solve"]},
         "explanation": "and/or/not/all/of arms of the real solve_expression are proved equal to the truth-table spec (and3/or3/not3/of3 over sems) for groups of any length",
         "assumptions": [],
     },
